@@ -194,6 +194,8 @@ func cmdC08(args []string) error {
 		for k, v := range res {
 			o[k] = v
 		}
+		cerr, _ := o["cerr"].(string)
+		o["selfdef"] = strings.Contains(cerr, "is defined in terms of itself")
 		return out.write(o)
 	}
 	err = readCases(c.cases, func(m map[string]interface{}) error {
